@@ -113,9 +113,27 @@ func reasonClass(reason string) string {
 // does not stop it. Returns whether any call reported an error, and the number
 // of values seen.
 func c07Traverse(r ion.Reader) (sawErr bool, n int, detail string) {
+	var firstErr error
 	var walk func(depth int)
 	walk = func(depth int) {
-		for r.Next() {
+		for {
+			ok := r.Next()
+			if e := r.Err(); e != nil && firstErr == nil {
+				firstErr = e
+			} else if firstErr != nil && detail == "" {
+				// the reader has failed: it must stay failed, also across the
+				// StepOut calls that unwind the traversal
+				if ok {
+					detail = fmt.Sprintf("Next() returned true (a %v) after Err() had become %q", r.Type(), firstErr)
+				} else if e == nil {
+					detail = fmt.Sprintf("Err() went back to nil after it had been %q", firstErr)
+				} else if e != firstErr && e.Error() != firstErr.Error() {
+					detail = fmt.Sprintf("Err() changed from %q to %q", firstErr, e)
+				}
+			}
+			if !ok {
+				return
+			}
 			n++
 			if n > 1<<20 {
 				return
@@ -167,10 +185,15 @@ func runC07(c C07Case) string {
 	}
 	nt := c.Pos > 0 && c.Pos < len(c.Doc)
 	st.Eval(nt, model.DigestBytes("c07", c.Doc), "format."+format, "op."+c.Op, reasonClass(reason))
-	st.Sample(func() string { return fmt.Sprintf("op=%s at %d: %s  (reference: %s)", c.Op, c.Pos, showDoc(c.Doc), reason) })
+	st.Sample(func() string {
+		return fmt.Sprintf("op=%s at %d: %s  (reference: %s)", c.Op, c.Pos, showDoc(c.Doc), reason)
+	})
 	return drive.Guard2(func() string {
 		r := ion.NewReaderBytes(c.Doc)
-		_, n, _ := c07Traverse(r)
+		_, n, detail := c07Traverse(r)
+		if detail != "" {
+			return fmt.Sprintf("malformed %s input (%s): %s\nedit: %s at %d\ndoc: %s", format, reason, detail, c.Op, c.Pos, showDoc(c.Doc))
+		}
 		err := r.Err()
 		if err == nil {
 			return fmt.Sprintf("malformed %s input (%s) was traversed to the end with Err()==nil after %d values\nedit: %s at %d\ndoc: %s", format, reason, n, c.Op, c.Pos, showDoc(c.Doc))
@@ -250,6 +273,14 @@ func c07Edits(base []byte, yield func(C07Case) bool) bool {
 				}
 			}
 		}
+		for _, tok := range c07BinTokens() {
+			for i := 4; i <= n; i++ {
+				d := append(append(append([]byte{}, base[:i]...), tok...), base[i:]...)
+				if !mk("insert-invalid-value", i, d) {
+					return false
+				}
+			}
+		}
 		return true
 	}
 	for i := 0; i <= n; i++ {
@@ -276,6 +307,79 @@ func c07Edits(base []byte, yield func(C07Case) bool) bool {
 		}
 	}
 	return true
+}
+
+// c07BinTokens are complete but invalid binary values (the property's list:
+// negative zero of every width, illegal tag/length pairs, impossible calendar
+// fields, malformed wrappers, non-UTF-8 strings, a version marker in a wrapper).
+func c07BinTokens() [][]byte {
+	var out [][]byte
+	add := func(b ...byte) { out = append(out, b) }
+	// negative zero: L = 0..13, and L = 14 with VarUInt lengths 14..20
+	for l := 0; l <= 13; l++ {
+		add(append([]byte{0x30 | byte(l)}, make([]byte, l)...)...)
+	}
+	for l := 14; l <= 20; l++ {
+		add(append([]byte{0x3E, 0x80 | byte(l)}, make([]byte, l)...)...)
+	}
+	// bool with L in 2..14, float with a length other than 0/4/8
+	for l := 2; l <= 13; l++ {
+		add(append([]byte{0x10 | byte(l)}, make([]byte, l)...)...)
+	}
+	for _, l := range []int{1, 2, 3, 5, 6, 7, 9, 10, 13} {
+		add(append([]byte{0x40 | byte(l)}, make([]byte, l)...)...)
+	}
+	add(0xF0)
+	add(0xF1, 0x00)
+	add(0xEF)
+	// timestamps (offset 0 = 0x80): impossible fields
+	ts := func(f ...byte) { add(append([]byte{0x60 | byte(len(f)+1), 0x80}, f...)...) }
+	y := []byte{0x0F, 0xE5}                                                         // 2021
+	ts(append(append([]byte{}, y...), 0x80)...)                                     // month 0
+	ts(append(append([]byte{}, y...), 0x8D)...)                                     // month 13
+	ts(append(append([]byte{}, y...), 0x81, 0x80)...)                               // day 0
+	ts(append(append([]byte{}, y...), 0x81, 0xA0)...)                               // day 32
+	ts(append(append([]byte{}, y...), 0x82, 0x9D)...)                               // 2021-02-29
+	ts(append(append([]byte{}, y...), 0x82, 0x9E)...)                               // 02-30
+	ts(append(append([]byte{}, y...), 0x84, 0x9F)...)                               // 04-31
+	ts(append(append([]byte{}, y...), 0x81, 0x81, 0x98, 0x80)...)                   // hour 24
+	ts(append(append([]byte{}, y...), 0x81, 0x81, 0x80, 0xBC)...)                   // minute 60
+	ts(append(append([]byte{}, y...), 0x81, 0x81, 0x80, 0x80, 0xBC)...)             // second 60
+	ts(append(append([]byte{}, y...), 0x81, 0x81, 0x80)...)                         // hour without minute
+	ts(append(append([]byte{}, y...), 0x81, 0x81, 0x80, 0x80, 0x80, 0x80, 0x01)...) // fraction 1d0 >= 1
+	ts(append(append([]byte{}, y...), 0x81, 0x81, 0x80, 0x80, 0x80, 0xC1, 0x81)...) // fraction -1d-1
+	ts(0x80)                                                                        // year 0
+	// annotation wrappers
+	add(0xE0) // lone E0 followed by whatever comes next
+	add(0xE1, 0x81)
+	add(0xE2, 0x81, 0x84)
+	add(0xE3, 0x80, 0x84, 0x20)                   // annot_length 0
+	add(0xE3, 0x82, 0x84, 0x84)                   // annot_length leaves no room
+	add(0xE3, 0x81, 0x84, 0x00)                   // wrapper around NOP
+	add(0xE4, 0x81, 0x84, 0x01, 0x00)             // wrapper around a NOP pad of length 1
+	add(0xE6, 0x81, 0x84, 0xE3, 0x81, 0x84, 0x20) // nested wrapper
+	add(0xE4, 0x81, 0x84, 0x21, 0x01, 0x20)       // wrapper shorter than its value + trailing
+	add(0xE4, 0x81, 0x84, 0x20)                   // wrapper longer than its value (overruns or swallows)
+	add(0xE6, 0x81, 0x84, 0xE0, 0x01, 0x00, 0xEA) // version marker inside a wrapper
+	add(0xB4, 0xE0, 0x01, 0x00, 0xEA)             // version marker inside a list
+	add(0xD1, 0x80)                               // sorted struct of length 0
+	add(0xD2, 0x84, 0x21)                         // struct: value overruns
+	add(0xD1, 0x84)                               // struct ends after the field ID (as sorted: length 4 follows)
+	add(0xD2, 0x84, 0x84)                         // field ID, then "string of length 4" overrunning
+	add(0xB2, 0x21)                               // list: int of length 1 has no room
+	add(0xC3, 0x22, 0x01)                         // sexp: int of length 2, one byte left
+	// strings that are not UTF-8
+	add(0x82, 0xC0, 0x80)
+	add(0x83, 0xED, 0xA0, 0x80)
+	add(0x81, 0xFF)
+	add(0x82, 0xE2, 0x82)
+	add(0x84, 0xF4, 0x90, 0x80, 0x80)
+	add(0x81, 0x80)
+	// lengths overrunning the input
+	add(0x8E, 0xFF)
+	add(0x2E, 0x90)
+	add(0xBE, 0x01, 0xFF)
+	return out
 }
 
 // c07Bases are the fixed base documents (both formats), small enough that the
